@@ -71,8 +71,49 @@ CIRC = [
 ]
 
 
-def build_circ(d):
-    return sut.ExcelModel().from_dict(dict(d), assemble=False).finish(complete=False, circular=True)
+CIRC.append({"'[b.xlsx]S'!C9": 5.0, "'[b.xlsx]S'!C10": "='[b.xlsx]S'!D9+1", "'[b.xlsx]S'!D9": "=IF('[b.xlsx]S'!C9>3,5,'[b.xlsx]S'!C10)",
+             "'[b.xlsx]S'!E10": "='[b.xlsx]S'!C10*2", "'[b.xlsx]S'!C1": 1.0, "'[b.xlsx]S'!C2": "='[b.xlsx]S'!C1+'[b.xlsx]S'!C9"})
+CIRC.append({"'[b.xlsx]S'!B10": "=IFERROR('[b.xlsx]S'!A9,'[b.xlsx]S'!B9)", "'[b.xlsx]S'!A9": 2.0, "'[b.xlsx]S'!B9": "='[b.xlsx]S'!B10+'[b.xlsx]S'!A10",
+             "'[b.xlsx]S'!A10": 3.0, "'[b.xlsx]S'!C1": 1.0, "'[b.xlsx]S'!C2": "='[b.xlsx]S'!B10*2"})
+
+
+def build_circ(d, solve=True):
+    m = sut.ExcelModel().from_dict(dict(d), assemble=False)
+    return m.finish(complete=False, circular=True) if solve else m
+
+
+def check_circ_late(case):
+    """The model is copied BEFORE its circular references are solved; finish(circular=True) is then run on the original and on
+    each copy: all of them equal a model that was built and solved in one go (added after seed c17-a-r4)."""
+    d = CIRC[case['i'] % len(CIRC)]
+    base = build_circ(d, solve=False)
+    objs = {'original': base}
+    for how in case['copies']:
+        objs[how + str(len(objs))] = H.do_copy(base, how)
+    fails, n = [], 0
+    for name in (sorted(objs) if case.get('order') else sorted(objs, reverse=True)):
+        m = objs[name]
+        try:
+            m.finish(complete=False, circular=True)
+        except sut.Watchdog:
+            raise
+        except Exception as ex:
+            fails.append(('circular-late|finish-raised:%s|%s' % (type(ex).__name__, name.rstrip('0123456789')), repr(ex)[:200]))
+            continue
+        for inputs in ({}, {"'[b.xlsx]S'!C1": 4.0}):
+            a, _ = G.flatten(m.calculate(inputs=dict(inputs)))
+            b, _ = G.flatten(build_circ(d).calculate(inputs=dict(inputs)))
+            n += 1
+            for k in sorted(set(a) | set(b), key=repr):
+                if not X.same(a.get(k, sut.BLANK), b.get(k, sut.BLANK), 1e-12):
+                    fails.append(('circular-late|differs-from-fresh|%s' % name.rstrip('0123456789'), '%s: %r vs %r in a model solved in one go' % (k, a.get(k), b.get(k))))
+                    break
+    seen, out = set(), []
+    for s_, d_ in fails:
+        if s_ not in seen:
+            seen.add(s_)
+            out.append((s_, d_))
+    return R(out, nt=True, n=max(n, 1), labels=['circular-late'])
 
 
 def check_circ(case):
@@ -165,6 +206,8 @@ def check_case(case):
         return check_fcopy(case)
     if k == 'circ':
         return check_circ(case)
+    if k == 'circ-late':
+        return check_circ_late(case)
     raise ValueError(k)
 
 
@@ -208,4 +251,6 @@ def _sparse_copies():
 def parts(tier, seed):
     q = tier == 'quick'
     return [('hyp', 'histories', 480 if q else 6000, 8), ('hyp', 'fcopies', 160 if q else 4000, 10), ('hyp', 'circ', 64 if q else 1500, 4),
-            ('hyp', 'arraypad', 160 if q else 3000, 10), ('enum', 'sparse-ranges-on-copies', _sparse_copies(), 3, False)]
+            ('hyp', 'arraypad', 160 if q else 3000, 10), ('enum', 'sparse-ranges-on-copies', _sparse_copies(), 3, False),
+            ('enum', 'copies-before-solve-circular', [{'k': 'circ-late', 'i': i, 'copies': cp, 'order': o} for i in range(5)
+                                                      for cp in (['deepcopy'], ['dill'], ['deepcopy', 'dill']) for o in (0, 1)], 2, False)]
